@@ -86,6 +86,32 @@ func (c18) Gen(r *Rand, idx int, tier string) interface{} {
 	if long {
 		g = 2 // few holders, many acquisitions: the pool-eviction faults drive the id counter far up
 	}
+	if !wide && !long && r.Intn(250) == 0 {
+		// very many names held at once by one task (more than 1024), a few released and taken again, all released,
+		// all taken again: whatever parks released ids has to hold thousands of them
+		n := 1030 + r.Intn(300)
+		var prog []c18Op
+		for i := 0; i < n; i++ {
+			prog = append(prog, c18Op{Op: "acq", Slot: i})
+		}
+		for i := 0; i < 5; i++ {
+			prog = append(prog, c18Op{Op: "reln", Slot: i})
+		}
+		for i := 0; i < 3; i++ {
+			prog = append(prog, c18Op{Op: "acq", Slot: i})
+		}
+		for i := 0; i < n; i++ {
+			prog = append(prog, c18Op{Op: Pick(r, []string{"relp", "reln"}), Slot: i})
+		}
+		for i := 0; i < n; i++ {
+			prog = append(prog, c18Op{Op: "acq", Slot: i})
+		}
+		p.Progs = [][]c18Op{prog}
+		p.MoreFormats = nil
+		p.Format = Pick(r, []string{"%d", "n%d", "%05d"})
+		p.Knobs.Strategy, p.Knobs.TargetSite, p.Knobs.TargetNth = "uniform", 0, 0
+		return p
+	}
 	for t := 0; t < g; t++ {
 		n := 2 + r.Intn(10)
 		if g > 16 {
@@ -525,5 +551,5 @@ func (c18) Run(plan interface{}, schedSeed uint64, replay []simrt.Choice, lenien
 
 // RequiredProbes: a batch in which one of these never fired explored nothing of that kind (exit 2, not a pass).
 func (c18) RequiredProbes() []string {
-	return []string{"concurrent-holders", "id-reused", "fault:pool-gc-empties", "fault:pool-drop-on-put", "porcupine-ok"}
+	return []string{"concurrent-holders", "id-reused", "fault:pool-gc-empties?pool-get", "fault:pool-drop-on-put?pool-get", "porcupine-ok"}
 }
